@@ -223,6 +223,7 @@ def standard(mod, ctx, replay=None):
         "source_hashes": lib.source_hashes(mod.SOURCES),
         "notes": ctx.notes,
         "unproved_observed": getattr(mod, "UNPROVED_OBSERVED", []),
+        "correspondence_only": getattr(mod, "CORRESPONDENCE_ONLY", []),
     }
     ctx.write_evidence(coverage, list(mod.ASSUMPTIONS))
     if machinery:
